@@ -70,28 +70,28 @@ type Model struct {
 	hits, misses, loadOK, loadFail, evictions, evictionWeight uint64
 
 	// per-operation state
-	pends      map[int]*pend
-	reads      map[int]int // expected ExpireAfterRead calls per key
-	rrf        map[int]int // expected RefreshAfterReloadFailure calls per key
-	loads      []*expLoad
-	atomics    []Event
-	deletions  []Event
-	opHits     int64
-	nestHits   int64 // lookups recorded by no-op computations run from inside a loader
-	nestMisses int64
-	opMisses   int64
-	opLoadOK   int64
-	opLoadFail int64
-	evStats    []int64 // weights of RecordEviction calls in this op
-	removed    []remEv // automatic removals in this op
-	op         *Op
-	mm         []Mismatch
-	cbSeen     int
-	execPanics int
-	nextLoad   func(ev Event) // handler of the next loader exit
-	unnotified     []Event      // queued executor: atomic events whose OnDeletion has not been delivered yet
-	registered     map[int]bool // keys with an in-flight call of this operation that has not returned yet
-	cancelled      map[int]bool // ... whose call was cancelled by an automatic removal of the key
+	pends          map[int]*pend
+	reads          map[int]int // expected ExpireAfterRead calls per key
+	rrf            map[int]int // expected RefreshAfterReloadFailure calls per key
+	loads          []*expLoad
+	atomics        []Event
+	deletions      []Event
+	opHits         int64
+	nestHits       int64 // lookups recorded by no-op computations run from inside a loader
+	nestMisses     int64
+	opMisses       int64
+	opLoadOK       int64
+	opLoadFail     int64
+	evStats        []int64 // weights of RecordEviction calls in this op
+	removed        []remEv // automatic removals in this op
+	op             *Op
+	mm             []Mismatch
+	cbSeen         int
+	execPanics     int
+	nextLoad       func(ev Event) // handler of the next loader exit
+	unnotified     []Event        // queued executor: atomic events whose OnDeletion has not been delivered yet
+	registered     map[int]bool   // keys with an in-flight call of this operation that has not returned yet
+	cancelled      map[int]bool   // ... whose call was cancelled by an automatic removal of the key
 	lastExit       *Event
 	bulkLoadExit   *Event
 	bulkReloadExit *Event
